@@ -248,6 +248,11 @@ Definition parse (c : cfg) (e : ep) : ep * nat :=
 
 Definition cap60 (i : N) : N := if N.ltb 60000 i then 60000%N else i.
 
+(* handleRetransmitTimeout (commits 30fc24e, b6ad085): the interval doubles while it is below the cap and
+   never past it; an interval configured at or above the cap is left alone; without backoff it is constant *)
+Definition next_interval (backoff : bool) (i : N) : N :=
+  if backoff && N.ltb i 60000 then (if N.ltb 30000 i then 60000%N else (2 * i)%N) else i.
+
 (* prepare + send of flight f at time [now] *)
 Definition enter (c : cfg) (e : ep) (f : nat) (now : N) : ep * list dgram :=
   (* flight5Generate initialises the cipher suite before the client sends its key exchange *)
@@ -268,8 +273,9 @@ Definition on_event (c : cfg) (e : ep) (retr : bool) (now : N) : ep * list dgram
            then (upd_fsm e2 (e_flight e2) Finished true (e_interval e2) (e_timer e2), [])
            else enter c e2 nxt now
   | Finished =>
-      (* fsm12.finish: only the sender of the last flight repeats it *)
-      if fl_last_send (e_flight e)
+      (* fsm12.finish: only the sender of the last flight repeats it, and only for a datagram that repeats
+         something the peer sent before (commit 8305f84; before it, for any handshake datagram) *)
+      if fl_last_send (e_flight e) && retr
       then (e, fl_lookup (e_flight e) (c_fl c))
       else (e, [])
   end.
@@ -284,7 +290,7 @@ Definition on_timer (c : cfg) (e : ep) : ep * list dgram :=
   | Finished => (e, [])
   | Waiting =>
       if fl_retransmit (e_flight e) then
-        let i := cap60 (if c_backoff c then (2 * e_interval e)%N else e_interval e) in
+        let i := next_interval (c_backoff c) (e_interval e) in
         (upd_fsm e (e_flight e) Waiting (e_est e) i (e_timer e + i)%N, fl_lookup (e_flight e) (c_fl c))
       else
         (upd_fsm e (e_flight e) Waiting (e_est e) (e_interval e) (e_timer e + e_interval e)%N, [])
@@ -334,26 +340,53 @@ Fixpoint advance (fuel : nat) (c : cfg) (s : sys) (T : N) : sys :=
   end.
 
 (* a move of the scripted network: at time T deliver the k-th datagram emitted by the client
-   (to the server) or by the server (to the client) *)
-Inductive move := Deliver (from_client : bool) (k : nat) (T : N).
+   (to the server) or by the server (to the client).
+   [Redeliver]: the network delivers a datagram it has delivered before (an exact duplicate).  Since
+   commit 5206069 unprotected records do not move the replay window, so the epoch-0 records of the
+   duplicate are processed again; its epoch-1 record (the Finished) is refused as a replay once the
+   receiver can read that epoch (it has then processed the first copy) and is put aside again
+   before that, exactly as the first copy was. *)
+Inductive move :=
+| Deliver (from_client : bool) (k : nat) (T : N)
+| Redeliver (from_client : bool) (k : nat) (T : N)
+| Inject (to_client : bool) (d : dgram) (T : N).     (* a datagram nobody emitted: anybody can send unprotected records *)
+
+Definition is_fin (r : rec) : bool := match r with Fin _ => true | _ => false end.
+
+Definition duplicate_of (e : ep) (d : dgram) : dgram :=
+  if Nat.leb 1 (e_repoch e) && e_init e then filter (fun r => negb (is_fin r)) d else d.
+
+Definition do_inject (c : cfg) (s0 : sys) (tc : bool) (d : dgram) (T : N) : option sys :=
+  let s := advance 4096 c s0 T in
+  if tc then
+    let '(e', out) := on_datagram c (s_c s) d T in
+    Some {| s_c := e'; s_s := s_s s; s_cout := s_cout s ++ stamp T out; s_sout := s_sout s |}
+  else
+    let '(e', out) := on_datagram c (s_s s) d T in
+    Some {| s_c := s_c s; s_s := e'; s_cout := s_cout s; s_sout := s_sout s ++ stamp T out |}.
 
 Definition do_move (c : cfg) (s0 : sys) (m : move) : option sys :=
-  let '(Deliver fc k T) := m in
+  match m with Inject tc d T => do_inject c s0 tc d T | _ =>
+  let '(dup, fc, k, T) := match m with Deliver fc k T => (false, fc, k, T) | Redeliver fc k T => (true, fc, k, T)
+                                   | Inject _ _ T => (false, true, 0, T) end in
   let s := advance 4096 c s0 T in
   if fc then
     match nth_error (s_cout s) k with
     | None => None
-    | Some (_, d) =>
+    | Some (_, d0) =>
+        let d := if dup then duplicate_of (s_s s) d0 else d0 in
         let '(e', out) := on_datagram c (s_s s) d T in
         Some {| s_c := s_c s; s_s := e'; s_cout := s_cout s; s_sout := s_sout s ++ stamp T out |}
     end
   else
     match nth_error (s_sout s) k with
     | None => None
-    | Some (_, d) =>
+    | Some (_, d0) =>
+        let d := if dup then duplicate_of (s_c s) d0 else d0 in
         let '(e', out) := on_datagram c (s_c s) d T in
         Some {| s_c := e'; s_s := s_s s; s_cout := s_cout s ++ stamp T out; s_sout := s_sout s |}
-    end.
+    end
+  end.
 
 Fixpoint run_moves (c : cfg) (s : sys) (ms : list move) : option sys :=
   match ms with
